@@ -1,1 +1,322 @@
-// Correspondence suites for property C02. Each suite is a #[test] fn named verif_c02_<suite>.
+// Correspondence / fault-injection suites for property C02 (one tampering helper can abort a query but
+// never change its result).
+//
+// Request grammar:
+//   c02.channels <shards> <pad> <records>
+//       honest malicious-mode hybrid query with a recording interceptor; response: sorted list of
+//       `<gate>|<src>><dst>|<bytes>` separated by `;`  (helper-to-helper channels only)
+//   c02.tamper <shards> <pad> <records> <corrupt H1|H2|H3> <dest H1|H2|H3> <pattern> <gate>
+//       same query, with the interceptor altering the traffic `corrupt -> dest` on `gate`:
+//       pattern = flip:<byte offset>:<bit>  |  add:<byte offset>:<delta>  |  zero  |  swap
+//       response: `abort-or-same abort:<kind>` | `abort-or-same same` | `changed <histogram>` | `untouched`
+use std::sync::{Arc, Mutex};
+
+use futures::future::try_join3;
+
+use super::{c01, proto::*};
+use crate::{
+    error::Error,
+    ff::{U128Conversions, boolean_array::{BA3, BA8, BA32}},
+    helpers::{
+        HelperIdentity, Role, RoleAssignment,
+        in_memory_config::{InspectContext, StreamInterceptor},
+        query::DpMechanism,
+    },
+    protocol::{hybrid::hybrid_protocol, ipa_prf::oprf_padding::PaddingParameters},
+    report::hybrid::{HybridReport, IndistinguishableHybridReport},
+    secret_sharing::{IntoShares, replicated::semi_honest::AdditiveShare as Replicated},
+    test_fixture::{Reconstruct, TestWorld, TestWorldConfig, WithShards, hybrid::TestHybridRecord},
+};
+
+#[derive(Clone, Debug)]
+pub enum Pattern {
+    None,
+    Flip(usize, u8),
+    Add(usize, u8),
+    Zero,
+    Swap,
+}
+
+#[derive(Default)]
+pub struct Recorder {
+    /// (gate, src, dst) -> bytes seen
+    pub seen: Mutex<std::collections::BTreeMap<(String, u8, u8), usize>>,
+    pub target: Option<(String, u8, u8)>,
+    pub pattern: Option<Pattern>,
+    pub hits: Mutex<usize>,
+}
+
+fn hid(h: HelperIdentity) -> u8 {
+    if h == HelperIdentity::ONE { 1 } else if h == HelperIdentity::TWO { 2 } else { 3 }
+}
+
+impl StreamInterceptor for Recorder {
+    type Context = InspectContext;
+
+    fn peek(&self, ctx: &InspectContext, data: &mut Vec<u8>) {
+        if let InspectContext::MpcMessage { source, dest, gate, .. } = ctx {
+            let key = (gate.as_ref().to_string(), hid(*source), hid(*dest));
+            let mut seen = self.seen.lock().unwrap();
+            let offset_before = *seen.get(&key).unwrap_or(&0);
+            *seen.entry(key.clone()).or_insert(0) += data.len();
+            drop(seen);
+            if let (Some(t), Some(p)) = (&self.target, &self.pattern) {
+                if *t == key && !data.is_empty() {
+                    match p {
+                        Pattern::Flip(off, bit) => {
+                            // offset counted over the whole channel
+                            if *off >= offset_before && *off < offset_before + data.len() {
+                                data[*off - offset_before] ^= 1 << bit;
+                                *self.hits.lock().unwrap() += 1;
+                            }
+                        }
+                        Pattern::Add(off, d) => {
+                            if *off >= offset_before && *off < offset_before + data.len() {
+                                let i = *off - offset_before;
+                                data[i] = data[i].wrapping_add(*d);
+                                *self.hits.lock().unwrap() += 1;
+                            }
+                        }
+                        Pattern::Zero => {
+                            if offset_before == 0 && data.iter().any(|b| *b != 0) {
+                                for b in data.iter_mut() {
+                                    *b = 0;
+                                }
+                                *self.hits.lock().unwrap() += 1;
+                            }
+                        }
+                        Pattern::Swap => {
+                            if offset_before == 0 && data.len() >= 2 {
+                                let n = data.len();
+                                if data[0] != data[n - 1] {
+                                    data.swap(0, n - 1);
+                                    *self.hits.lock().unwrap() += 1;
+                                }
+                            }
+                        }
+                        Pattern::None => {}
+                    }
+                }
+            }
+        }
+    }
+}
+
+/// `protocol/iter000/a/b12/bit3` -> `a/b#/bit#` (run prefix dropped, digit runs at the end of a segment -> `#`)
+pub fn normalize_gate(g: &str) -> String {
+    g.split('/')
+        .filter(|s| !s.is_empty())
+        .skip(2)
+        .map(|seg| {
+            let t = seg.trim_end_matches(|c: char| c.is_ascii_digit());
+            if t.len() < seg.len() { format!("{t}#") } else { seg.to_string() }
+        })
+        .collect::<Vec<_>>()
+        .join("/")
+}
+
+fn parse_pattern(s: &str) -> Pattern {
+    let p: Vec<&str> = s.split(':').collect();
+    match p[0] {
+        "flip" => Pattern::Flip(p[1].parse().unwrap(), p[2].parse().unwrap()),
+        "add" => Pattern::Add(p[1].parse().unwrap(), p[2].parse().unwrap()),
+        "zero" => Pattern::Zero,
+        "swap" => Pattern::Swap,
+        "none" => Pattern::None,
+        x => panic!("harness: bad pattern {x}"),
+    }
+}
+
+pub enum Outcome {
+    Hist(Vec<u128>),
+    Abort(String),
+}
+
+/// Runs the hybrid protocol in malicious mode on one shard... with `shards` shards and the given recorder.
+async fn run_query<const SHARDS: usize>(
+    recorder: Arc<Recorder>,
+    pad: PaddingParameters,
+    records: Vec<TestHybridRecord>,
+    seed: u64,
+    secs: u64,
+) -> Outcome {
+    let mut config = TestWorldConfig::default().with_timeout_secs(secs);
+    config.seed = seed;
+    config.stream_interceptor = recorder;
+    let world = TestWorld::<WithShards<SHARDS>>::with_shards(config);
+    let mut rng = Rng(seed ^ 0x5555);
+    let [i1, i2, i3]: [Vec<HybridReport<BA8, BA3>>; 3] = records.into_iter().share_with(&mut rng);
+    let ctxs = world.malicious_contexts();
+    let [c1, c2, c3] = ctxs;
+    // round-robin distribution of the shares to shards
+    let dist = |v: Vec<HybridReport<BA8, BA3>>| -> Vec<Vec<IndistinguishableHybridReport<BA8, BA3>>> {
+        let mut r: Vec<Vec<_>> = (0..SHARDS).map(|_| vec![]).collect();
+        for (i, x) in v.into_iter().enumerate() {
+            r[i % SHARDS].push(x.into());
+        }
+        r
+    };
+    let helper = |ctxs: Vec<_>, inputs: Vec<Vec<IndistinguishableHybridReport<BA8, BA3>>>| {
+        futures::future::try_join_all(ctxs.into_iter().zip(inputs).map(|(ctx, rows)| {
+            hybrid_protocol::<_, BA8, BA3, BA32, 3, 256>(ctx, rows, DpMechanism::NoDp, pad)
+        }))
+    };
+    let fut = try_join3(helper(c1, dist(i1)), helper(c2, dist(i2)), helper(c3, dist(i3)));
+    match tokio::time::timeout(std::time::Duration::from_secs(secs), fut).await {
+        Err(_) => Outcome::Abort("hang".into()),
+        Ok(Err(e)) => {
+            let d = format!("{e:?}");
+            Outcome::Abort(d.chars().take_while(|c| c.is_alphanumeric() || *c == '_').collect())
+        }
+        Ok(Ok((r1, r2, r3))) => {
+            let h: Vec<BA32> = [r1[0].clone(), r2[0].clone(), r3[0].clone()].reconstruct();
+            Outcome::Hist(h.iter().map(|x| x.as_u128()).collect())
+        }
+    }
+}
+
+fn run_blocking(shards: usize, recorder: Arc<Recorder>, pad: PaddingParameters, records: Vec<TestHybridRecord>, seed: u64, secs: u64) -> Outcome {
+    let r = block_on_timeout(secs + 20, async move {
+        match shards {
+            1 => run_query::<1>(recorder, pad, records, seed, secs).await,
+            2 => run_query::<2>(recorder, pad, records, seed, secs).await,
+            n => panic!("harness: unsupported shard count {n}"),
+        }
+    });
+    match r {
+        Ok(o) => o,
+        Err(_) => Outcome::Abort("hang".into()),
+    }
+}
+
+/// A helper task that panics has crashed: the query produces no output (abort).
+fn run_guarded(shards: usize, recorder: Arc<Recorder>, pad: PaddingParameters, records: Vec<TestHybridRecord>, seed: u64, secs: u64) -> Outcome {
+    match guarded(|| run_blocking(shards, recorder, pad, records, seed, secs)) {
+        Ok(o) => o,
+        Err(p) => Outcome::Abort(format!("crash({})", p.chars().take(70).collect::<String>().replace(' ', "_"))),
+    }
+}
+
+fn pad_of(s: &str) -> PaddingParameters {
+    if s == "1" { c01::small_padding() } else { PaddingParameters::no_padding() }
+}
+
+fn seed_of(shards: &str, pad: &str, recs: &str) -> u64 {
+    format!("{shards} {pad} {recs}").bytes().fold(0xcbf2_9ce4_8422_2325u64, |h, b| (h ^ u64::from(b)).wrapping_mul(0x0000_0100_0000_01B3))
+}
+
+pub fn exec(req: &str) -> String {
+    let t: Vec<&str> = req.split(' ').collect();
+    match t[0] {
+        "c02.channels" => {
+            let rec = Arc::new(Recorder::default());
+            let o = run_blocking(t[1].parse().unwrap(), rec.clone(), pad_of(t[2]), c01::parse_records(t[3]), seed_of(t[1], t[2], t[3]), 60);
+            let seen = rec.seen.lock().unwrap();
+            let mut chans: Vec<String> = seen.iter().map(|((g, _, _), _)| normalize_gate(g)).collect();
+            chans.sort();
+            chans.dedup();
+            match o {
+                Outcome::Hist(_) => chans.join(","),
+                Outcome::Abort(k) => format!("abort:{k}"),
+            }
+        }
+        "c02.tamper" => {
+            let shards: usize = t[1].parse().unwrap();
+            let seed = seed_of(t[1], t[2], t[3]);
+            let key = format!("{} {} {}", t[1], t[2], t[3]);
+            let cached = HONEST.lock().unwrap().get(&key).cloned();
+            let honest = match cached {
+                Some(h) => h,
+                None => {
+                    let honest = run_blocking(shards, Arc::new(Recorder::default()), pad_of(t[2]), c01::parse_records(t[3]), seed, 60);
+                    let Outcome::Hist(honest) = honest else { return "honest-run-failed".into() };
+                    HONEST.lock().unwrap().insert(key, honest.clone());
+                    honest
+                }
+            };
+            let src: u8 = t[4][1..].parse().unwrap();
+            let dst: u8 = t[5][1..].parse().unwrap();
+            let rec = Arc::new(Recorder {
+                target: Some((t[7].to_string(), src, dst)),
+                pattern: Some(parse_pattern(t[6])),
+                ..Default::default()
+            });
+            let o = run_guarded(shards, rec.clone(), pad_of(t[2]), c01::parse_records(t[3]), seed, 12);
+            let hits = *rec.hits.lock().unwrap();
+            match o {
+                Outcome::Abort(k) => format!("abort-or-same abort:{k}"),
+                Outcome::Hist(h) if h == honest => {
+                    if hits == 0 { "untouched".into() } else { "abort-or-same same".into() }
+                }
+                Outcome::Hist(h) => format!("changed {}", nat_list(&h)),
+            }
+        }
+        _ => panic!("harness: unknown request {req}"),
+    }
+}
+
+static HONEST: Mutex<std::collections::BTreeMap<String, Vec<u128>>> = Mutex::new(std::collections::BTreeMap::new());
+
+/// honest run listing every concrete channel (gate, src, dst, bytes)
+fn list_channels(shards: usize, pad: &str, recs: &str) -> Vec<(String, u8, u8, usize)> {
+    let rec = Arc::new(Recorder::default());
+    let sh = shards.to_string();
+    let _ = run_blocking(shards, rec.clone(), pad_of(pad), c01::parse_records(recs), seed_of(&sh, pad, recs), 60);
+    let seen = rec.seen.lock().unwrap();
+    seen.iter().map(|((g, s, d), n)| (g.clone(), *s, *d, *n)).collect()
+}
+
+fn gen_tamper(rng: &mut Rng, thorough: bool, shards: usize, pad: &str, recs: &str, out: &mut Vec<String>) {
+    let chans = list_channels(shards, pad, recs);
+    // group concrete channels by normalised gate class
+    let mut classes: std::collections::BTreeMap<String, Vec<(String, u8, u8, usize)>> = Default::default();
+    for c in chans {
+        if c.3 > 0 {
+            classes.entry(normalize_gate(&c.0)).or_default().push(c);
+        }
+    }
+    let per_class = if thorough { 12 } else { 1 };
+    for (ci, (_class, members)) in classes.iter().enumerate() {
+        for k in 0..per_class {
+            let (g, s, d, n) = rng.pick(members).clone();
+            let pat = match (ci + k) % 5 {
+                0 => format!("flip:0:{}", rng.below(8)),
+                1 => format!("flip:{}:{}", n - 1, rng.below(8)),
+                2 => format!("add:{}:{}", rng.usize_below(n), 1 + rng.below(255)),
+                3 => "zero".to_string(),
+                _ => format!("flip:{}:{}", rng.usize_below(n), rng.below(8)),
+            };
+            out.push(format!("c02.tamper {shards} {pad} {recs} H{s} H{d} {pat} {g}"));
+        }
+    }
+}
+
+pub const RECS: &str = "i:11:3,c:11:2,i:12:3,c:12:5,c:13:1,c:13:2,i:14:9,i:15:1,c:15:4,c:16:3,i:17:3,c:17:1";
+
+#[test]
+fn verif_c02_tamper() {
+    run_suite(
+        "c02_tamper",
+        |rng, thorough| {
+            let mut out = vec![];
+            gen_tamper(rng, thorough, 1, "0", RECS, &mut out);
+            if thorough {
+                gen_tamper(rng, thorough, 1, "1", RECS, &mut out);
+            }
+            out
+        },
+        exec,
+    );
+}
+
+#[test]
+fn verif_c02_channels() {
+    run_suite(
+        "c02_channels",
+        |rng, _thorough| {
+            let big = c01::rec_str(&c01::gen_records(rng, 70, 256, 8));
+            vec![format!("c02.channels 1 0 {RECS}"), format!("c02.channels 1 1 {RECS}"), format!("c02.channels 2 0 {big}")]
+        },
+        exec,
+    );
+}
